@@ -293,4 +293,251 @@ Section Get.
           change (bf l' h') with (bf l h'). rewrite Hb, e_huge_MARK, orb_true_r. reflexivity.
         * rewrite orb_false_r. reflexivity.
   Qed.
+
+  (* ====================================================================== *)
+  (* what an enabled small block says about its huge frame                   *)
+  (* ====================================================================== *)
+  Lemma enabled_small_block l f k :
+    LowerInv g l -> (k < hord g)%nat -> spec_get_enabled (abs g l) f k = true ->
+    exists e rows, ent l (f / HF g) = Some e /\ bf l (f / HF g) = Some rows /\
+                   e <> MARK /\ pow2 k <= e /\ rows_ok g rows /\
+                   N.land (rows_bits rows) (blk (f mod HF g) (pow2 k)) = 0.
+  Proof.
+    intros Inv Hk En. apply spec_get_enabled_spec in En. rewrite abs_frames in En.
+    destruct En as (Hal & Hr & Hfree). pose proof (pow2_pos k) as Hp.
+    destruct (LowerInv_frame g l f Inv) as (e & rows & He & Hb); [lia|].
+    destruct (LowerInv_huge_ok g l _ e rows Inv He Hb) as (Hok & _ & Hcnt & _).
+    pose proof (aligned_in_huge g f k) as Hfit. specialize (Hfit ltac:(lia) Hal).
+    pose proof (huge_of_frame f) as Hf. set (h := f / HF g) in *.
+    destruct (in_huge_divmod h f Hf) as (_ & Emf).
+    assert (Hbit : forall i, f <= i < f + pow2 k ->
+                             e_huge e || N.testbit (rows_bits rows) (i - h * HF g) = false).
+    { intros i Hi. specialize (Hfree i Hi). rewrite (abs_alloc_testbit g WF l Inv) in Hfree.
+      destruct (in_huge_divmod h i) as (Ed & Em); [lia|].
+      rewrite (alloc_at_eq l i e rows) in Hfree by (rewrite Ed; assumption).
+      rewrite Em in Hfree. destruct (N.ltb_spec i (frames l)); [exact Hfree|lia]. }
+    assert (Hne : e <> MARK).
+    { intros ->. specialize (Hbit f). rewrite e_huge_MARK in Hbit. cbn [orb] in Hbit.
+      assert (true = false) by (apply Hbit; lia). discriminate. }
+    assert (Z : N.land (rows_bits rows) (blk (f mod HF g) (pow2 k)) = 0).
+    { apply land_blk_zero. intros i Hi. specialize (Hbit (h * HF g + i)).
+      rewrite (e_huge_false e Hne) in Hbit. cbn [orb] in Hbit.
+      replace (h * HF g + i - h * HF g) with i in Hbit by lia. apply Hbit. lia. }
+    exists e, rows. repeat (split; [assumption|]). split; [|split; [exact Hok|exact Z]].
+    destruct (Hcnt Hne) as (-> & _). apply (count_zeros_ge_block g WF rows _ _ Hok Hfit Z).
+  Qed.
+
+  (* ====================================================================== *)
+  (* the small-order search loop                                             *)
+  (* ====================================================================== *)
+  (* child h cannot serve the request *)
+  Definition child_fail (l : lower) (h start : N) (k : nat) : Prop :=
+    exists e, ent l h = Some e /\
+      (e_dec e (pow2 k) = None \/
+       exists rows, bf l h = Some rows /\ bf_set_first_zeros g rows start k = None).
+
+  Lemma child_fail_no_block l h start k f :
+    LowerInv g l -> (k < hord g)%nat -> child_fail l h start k -> f / HF g = h ->
+    spec_get_enabled (abs g l) f k = false.
+  Proof.
+    intros Inv Hk (e & He & Hc) Hf.
+    destruct (spec_get_enabled (abs g l) f k) eqn:En; [exfalso|reflexivity].
+    pose proof En as En'. apply spec_get_enabled_spec in En'. destruct En' as (Hal & _).
+    destruct (enabled_small_block l f k Inv Hk En) as (e0 & rows & He0 & Hb & Hne & Hle & Hok & Z).
+    rewrite Hf in He0, Hb. rewrite He in He0. injection He0 as <-.
+    destruct Hc as [Hd|(rows0 & Hb0 & Hs)].
+    - apply e_dec_none in Hd. lia.
+    - rewrite Hb in Hb0. injection Hb0 as <-.
+      apply (bf_sfz_none g WF rows start k Hok ltac:(lia) Hs (f mod HF g)).
+      + apply aligned_mod_HF; [lia|exact Hal].
+      + apply aligned_in_huge; [lia|exact Hal].
+      + exact Z.
+  Qed.
+
+  Lemma get_small_loop_spec l ts co start k :
+    LowerInv g l -> (k < hord g)%nat ->
+    (forall h, ts <= h < ts + THUGE g -> ent l h <> None) ->
+    forall n j r l', get_small_loop g l ts co start k j n = (r, l') ->
+    (r = Err EMemory /\ l' = l /\
+     forall j', j <= j' < j + N.of_nat n -> child_fail l (ts + (co + j') mod THUGE g) start k) \/
+    (exists h e rows rows' off,
+        ts <= h < ts + THUGE g /\ ent l h = Some e /\ e <> MARK /\ pow2 k <= e /\
+        bf l h = Some rows /\ bf_set_first_zeros g rows start k = Some (rows', off) /\
+        r = Ok (h * HF g + off) /\ l' = set_bf (set_ent l h (e - pow2 k)) h rows').
+  Proof.
+    intros Inv Hk Hent. pose proof (THUGE_pos g) as HT. pose proof (pow2_pos k) as Hp.
+    induction n as [|n IH]; intros j r l' H; cbn [get_small_loop] in H.
+    - injection H as <- <-. left. repeat split. intros j' Hj'. lia.
+    - cbv zeta in H. set (h := ts + (co + j) mod THUGE g) in *.
+      assert (Hh : ts <= h < ts + THUGE g).
+      { subst h. pose proof (N.mod_lt (co + j) (THUGE g) ltac:(lia)). lia. }
+      destruct (ent l h) as [e|] eqn:He; [|exfalso; apply (Hent h Hh He)].
+      assert (Hnext : forall (F : child_fail l h start k),
+                 get_small_loop g l ts co start k (j + 1) n = (r, l') ->
+                 (r = Err EMemory /\ l' = l /\
+                  forall j', j <= j' < j + N.of_nat (S n) ->
+                             child_fail l (ts + (co + j') mod THUGE g) start k) \/
+                 (exists h e rows rows' off,
+                     ts <= h < ts + THUGE g /\ ent l h = Some e /\ e <> MARK /\ pow2 k <= e /\
+                     bf l h = Some rows /\ bf_set_first_zeros g rows start k = Some (rows', off) /\
+                     r = Ok (h * HF g + off) /\ l' = set_bf (set_ent l h (e - pow2 k)) h rows')).
+      { intros F H'. destruct (IH _ _ _ H') as [(-> & -> & Hall)|Hex]; [left|right; exact Hex].
+        repeat split. intros j' Hj'. destruct (N.eq_dec j' j) as [->|Hne]; [exact F|].
+        apply Hall. lia. }
+      destruct (e_dec e (pow2 k)) as [e'|] eqn:Hd.
+      + destruct (e_dec_some e _ e' Hd) as (Hne & Hle & ->).
+        destruct (bf l h) as [rows|] eqn:Hb.
+        * destruct (LowerInv_huge_ok g l h e rows Inv He Hb) as (Hok & _ & Hcnt & _).
+          destruct (Hcnt Hne) as (_ & HleHF).
+          destruct (bf_set_first_zeros g rows start k) as [[rows' off]|] eqn:Hs.
+          -- injection H as <- <-. right. exists h, e, rows, rows', off. repeat split; try assumption; lia.
+          -- destruct (e_inc g (e - pow2 k) (pow2 k)) eqn:Hi;
+               [|exfalso; apply (e_inc_undo e (pow2 k) Hle HleHF Hi)].
+             apply Hnext; [|exact H]. exists e. split; [exact He|]. right. exists rows. split; assumption.
+        * exfalso. pose proof (LowerInv_no_bf g l h e Inv He Hb). lia.
+      + apply Hnext; [|exact H]. exists e. split; [exact He|]. left. exact Hd.
+  Qed.
+
+  (* ====================================================================== *)
+  (* the huge-order search loop                                              *)
+  (* ====================================================================== *)
+  Lemma get_huge_loop_spec l ts co hn :
+    forall n kk r l', get_huge_loop g l ts co hn kk n = (r, l') ->
+    (r = Err EMemory /\ l' = l /\
+     forall k', kk <= k' < kk + N.of_nat n ->
+                cas_all (ents l) (nn (ts + (co + k' * hn) mod THUGE g)) (nn hn) (HF g) MARK = None) \/
+    (exists k' es, kk <= k' < kk + N.of_nat n /\
+        cas_all (ents l) (nn (ts + (co + k' * hn) mod THUGE g)) (nn hn) (HF g) MARK = Some es /\
+        r = Ok ((ts + (co + k' * hn) mod THUGE g) * HF g) /\
+        l' = {| frames := frames l; bfs := bfs l; ents := es |}).
+  Proof.
+    induction n as [|n IH]; intros kk r l' H; cbn [get_huge_loop] in H.
+    - injection H as <- <-. left. repeat split. intros k' Hk'. lia.
+    - cbv zeta in H.
+      destruct (cas_all (ents l) (nn (ts + (co + kk * hn) mod THUGE g)) (nn hn) (HF g) MARK) as [es|] eqn:C.
+      + injection H as <- <-. right. exists kk, es. repeat split; try assumption; lia.
+      + destruct (IH _ _ _ H) as [(-> & -> & Hall)|(k' & es & Hk' & Hex)].
+        * left. repeat split. intros k' Hk'. destruct (N.eq_dec k' kk) as [->|Hne]; [exact C|].
+          apply Hall. lia.
+        * right. exists k', es. split; [lia|exact Hex].
+  Qed.
+
+  (* ====================================================================== *)
+  (* trees                                                                   *)
+  (* ====================================================================== *)
+  Lemma tree_of_huge h t : h / THUGE g = t <-> t * THUGE g <= h < t * THUGE g + THUGE g.
+  Proof.
+    pose proof (THUGE_nz g) as Hnz. split.
+    - intros <-. pose proof (N.div_mod h (THUGE g) Hnz). pose proof (N.mod_lt h (THUGE g) Hnz). lia.
+    - intros Hh. symmetry. apply (N.div_unique h (THUGE g) t (h - t * THUGE g)); lia.
+  Qed.
+
+  Lemma tree_ents l t : LowerInv g l -> t < ntab g (frames l) ->
+    forall h, t * THUGE g <= h < t * THUGE g + THUGE g -> ent l h <> None.
+  Proof.
+    intros Inv Ht h Hh. destruct (LowerInv_ent_some g l h Inv) as (e & He); [|congruence].
+    pose proof (THUGE_pos g). nia.
+  Qed.
+
+  Lemma has_tree_true l t : LowerInv g l -> t < ntab g (frames l) -> has_tree g l t = true.
+  Proof. intros Inv Ht. apply (has_tree_spec g l t Inv), Ht. Qed.
+
+  (* alignment of a huge-order block *)
+  Lemma aligned_huge f k : (hord g <= k)%nat -> f mod pow2 k = 0 ->
+    f = (f / HF g) * HF g /\ (f / HF g) mod pow2 (k - hord g) = 0.
+  Proof.
+    intros Hk Hal. assert (Epow : pow2 k = pow2 (k - hord g) * HF g) by (rewrite HF_pow2; apply pow2_split, Hk).
+    pose proof (aligned_mul f (pow2 k) (pow2_nz k) Hal) as Ef. rewrite Epow in Ef at 2.
+    rewrite N.mul_assoc in Ef.
+    assert (Eh : f / HF g = f / pow2 k * pow2 (k - hord g)).
+    { rewrite Ef at 1. apply N.div_mul, HF_nz. }
+    split; [rewrite Eh; exact Ef|]. rewrite Eh. apply N.mod_mul, pow2_nz.
+  Qed.
+
+  Lemma enabled_huge_block l f k :
+    LowerInv g l -> (hord g <= k)%nat -> spec_get_enabled (abs g l) f k = true ->
+    f = (f / HF g) * HF g /\ (f / HF g) mod pow2 (k - hord g) = 0 /\
+    forall h', f / HF g <= h' < f / HF g + pow2 (k - hord g) -> ent l h' = Some (HF g).
+  Proof.
+    intros Inv Hk En. apply spec_get_enabled_spec in En. rewrite abs_frames in En.
+    destruct En as (Hal & Hr & Hfree).
+    destruct (aligned_huge f k Hk Hal) as (Ef & Ehm). split; [exact Ef|]. split; [exact Ehm|].
+    assert (Epow : pow2 k = pow2 (k - hord g) * HF g) by (rewrite HF_pow2; apply pow2_split, Hk).
+    set (h := f / HF g) in *. set (hn := pow2 (k - hord g)) in *.
+    intros h' Hh'. apply (free_huge_entry l h' Inv).
+    - rewrite Ef, Epow in Hr. nia.
+    - intros i Hi. rewrite <- (abs_alloc_testbit g WF l Inv). apply Hfree.
+      rewrite Ef, Epow. nia.
+  Qed.
+
+  Lemma huge_index_fits h k : (hord g <= k)%nat -> (k <= tord g)%nat -> h mod pow2 (k - hord g) = 0 ->
+    h mod THUGE g + pow2 (k - hord g) <= THUGE g.
+  Proof.
+    intros Hk Hkt Hal. unfold tord in Hkt.
+    assert (Hle : (k - hord g <= tlog g)%nat) by lia.
+    apply aligned_block_fits.
+    - apply pow2_nz.
+    - rewrite THUGE_pow2. apply pow2_mod, Hle.
+    - rewrite THUGE_pow2, (pow2_split _ _ Hle), N.mul_comm.
+      rewrite mod_mod_mul; [exact Hal|apply pow2_nz|apply pow2_nz].
+    - apply N.mod_lt, THUGE_nz.
+  Qed.
+
+  (* ====================================================================== *)
+  (* lower_get_at                                                            *)
+  (* ====================================================================== *)
+  Theorem lower_get_at_spec l f k :
+    LowerInv g l -> (k <= tord g)%nat -> aligned f k = true -> f + pow2 k <= frames l ->
+    (spec_get_enabled (abs g l) f k = true /\
+     exists l', lower_get_at g l f k = (Ok tt, l') /\
+                abs g l' = spec_get g (abs g l) f k /\ LowerInv g l') \/
+    (spec_get_enabled (abs g l) f k = false /\ lower_get_at g l f k = (Err EMemory, l)).
+  Proof.
+    intros Inv Hkt Hal Hr. unfold aligned in Hal. apply N.eqb_eq in Hal.
+    pose proof (pow2_pos k) as Hp.
+    assert (Hf : f < frames l) by lia.
+    unfold lower_get_at. cbv zeta.
+    rewrite (has_tree_true l _ Inv (frame_lt_ntab g _ _ Hf)). cbn [negb].
+    destruct (Nat.leb_spec (hord g) k) as [Hk|Hk].
+    - (* huge orders *)
+      destruct (aligned_huge f k Hk Hal) as (Ef & Ehm).
+      pose proof (huge_index_fits _ k Hk Hkt Ehm) as Hfits.
+      destruct (N.ltb_spec (THUGE g) ((f / HF g) mod THUGE g + pow2 (k - hord g))) as [C|_]; [lia|].
+      destruct (cas_all (ents l) (nn (f / HF g)) (nn (pow2 (k - hord g))) (HF g) MARK) as [es|] eqn:C.
+      + destruct (huge_step l _ es k Inv Hk Ehm C) as (En & Ea & Inv'). rewrite <- Ef in En, Ea.
+        left. split; [exact En|]. eexists. split; [reflexivity|]. split; assumption.
+      + right. split; [|reflexivity].
+        destruct (spec_get_enabled (abs g l) f k) eqn:En; [exfalso|reflexivity].
+        destruct (enabled_huge_block l f k Inv Hk En) as (_ & _ & Hall).
+        apply cas_all_none in C. destruct C as (j & Hj & Hne). apply Hne.
+        specialize (Hall (N.of_nat j)). unfold ent, nn in Hall. rewrite Nat2N.id in Hall.
+        apply Hall. unfold nn in Hj. lia.
+    - (* small orders *)
+      destruct (LowerInv_frame g l f Inv Hf) as (e & rows & He & Hb). rewrite He.
+      destruct (LowerInv_huge_ok g l _ e rows Inv He Hb) as (Hok & _ & Hcnt & _).
+      assert (Hno : forall (C : spec_get_enabled (abs g l) f k = true -> False),
+                 spec_get_enabled (abs g l) f k = false).
+      { intros C. destruct (spec_get_enabled (abs g l) f k); [exfalso; apply C; reflexivity|reflexivity]. }
+      destruct (e_dec e (pow2 k)) as [e'|] eqn:Hd.
+      + destruct (e_dec_some e _ e' Hd) as (Hne & Hle & ->). rewrite Hb.
+        destruct (Hcnt Hne) as (_ & HleHF).
+        destruct (bf_toggle g rows f k false) as [rows'|] eqn:Ht.
+        * destruct (bf_toggle_false_some g WF rows f k rows' Hok ltac:(lia) Hal Ht) as (Hok' & Z & Hbits).
+          pose proof (aligned_mod_HF g f k ltac:(lia) Hal) as Halo.
+          pose proof (aligned_in_huge g f k ltac:(lia) Hal) as Hfit.
+          destruct (small_step l _ e rows rows' _ k Inv Hk He Hb Hne Hle Halo Hfit Hok' Z Hbits)
+            as (En & Ea & Inv').
+          replace (f / HF g * HF g + f mod HF g) with f in En, Ea
+            by (pose proof (N.div_mod f (HF g) (HF_nz g)); lia).
+          left. split; [exact En|]. eexists. split; [reflexivity|]. split; assumption.
+        * destruct (e_inc g (e - pow2 k) (pow2 k)) eqn:Hi;
+            [|exfalso; apply (e_inc_undo e (pow2 k) Hle HleHF Hi)].
+          right. split; [|reflexivity]. apply Hno. intros En.
+          destruct (enabled_small_block l f k Inv Hk En) as (e0 & rows0 & He0 & Hb0 & _ & _ & _ & Z).
+          rewrite Hb in Hb0. injection Hb0 as <-.
+          apply (bf_toggle_false_none g WF rows f k Hok ltac:(lia) Hal Ht Z).
+      + right. split; [|reflexivity]. apply Hno. intros En.
+        destruct (enabled_small_block l f k Inv Hk En) as (e0 & rows0 & He0 & _ & Hne & Hle & _).
+        rewrite He in He0. injection He0 as <-. apply e_dec_none in Hd. lia.
+  Qed.
 End Get.
